@@ -443,6 +443,31 @@ def r_replace_assignments(ck: Checker) -> None:
     lit = unparse(apps[0].args[0])
     ck.guard("simple equality: C1", func, apps[0], f"({lit}.sign == Sign.NoSign and {lit}.atom.guards[0].comparison == ComparisonOperator.Equal) or ({lit}.sign == Sign.Negation and {lit}.atom.guards[0].comparison == ComparisonOperator.NotEqual)", "")
     ck.guard("simple equality: variable = variable", func, apps[0], f"{lit}.atom.term.ast_type == ASTType.Variable and {lit}.atom.guards[0].term.ast_type == ASTType.Variable", "")
+    # classes of equated variables: each class is replaced by one of ITS OWN members
+    for name in ("utils.ast:replace_simple_assignments", "utils.ast:replace_simple_assignments_aggregate"):
+        fs = ck.func(name)
+        reps = [c for c in attr_calls(fs, "append") if unparse(c.func.value) == "uniques"]  # type: ignore[attr-defined]
+        ck.need(len(reps) == 1 and isinstance(reps[0].args[0], ast.Tuple) and len(reps[0].args[0].elts) == 2, f"{fs.name} records (class, representative) at one site")
+        lp = enclosing_loop(fs, reps[0])
+        cls_, rep = reps[0].args[0].elts  # type: ignore[attr-defined]
+        comp = unparse(lp.target) if lp is not None else "?"
+        ok = lp is not None and unparse(lp.iter).replace(" ", "") == "nx.connected_components(graph)" and unparse(cls_) == comp and unparse(rep).replace(" ", "") in (f"sorted({comp})[0]", f"min({comp})")
+        ck.add(f"{fs.name}: a class of equated variables is represented by its own smallest member", ok, fs, reps[0], f"`{short(unparse(reps[0]), 80)}` in the loop over `{unparse(lp.iter) if lp is not None else None}`",
+               "a representative taken from all equated variables merges independent classes (`X1 = X2, Y1 = Y2` would make X and Y the same variable): an equality nobody stated")
+        edges = [c for c in attr_calls(fs, "add_edge") if unparse(c.func.value) == "graph"]  # type: ignore[attr-defined]
+        el = enclosing_loop(fs, edges[0]) if edges else None
+        e_ = unparse(el.target) if el is not None else "?"
+        ok_e = len(edges) == 1 and len(edges[0].args) == 2 and [unparse(a) for a in edges[0].args] == [f"{e_}.atom.term", f"{e_}.atom.guards[0].term"]
+        ck.add(f"{fs.name}: classes connect exactly the two sides of each simple equality", ok_e, fs, edges[0] if edges else fs.node, f"`{short(unparse(edges[0]), 80) if edges else None}`", "")
+    rp = ck.func("utils.ast:_replace")
+    itr = ck.interp(rp)
+    u, v = rp.params()[:2]
+    rets = [(r, s) for r, s in itr.returns if r.value is not None and unparse(r.value) != v]
+    lps = [x for x in find_nodes(rp.node, lambda x: isinstance(x, ast.For))]
+    ck.need(len(lps) == 1 and isinstance(lps[0].target, ast.Tuple) and len(rets) >= 1, "_replace searches the classes")  # type: ignore[attr-defined]
+    c_, s_ = [unparse(e) for e in lps[0].target.elts]  # type: ignore[attr-defined]
+    ok_r = all(unparse(r.value) == s_ and itr.holds(r, f"{v} in {c_}") for r, s in rets)
+    ck.add("_replace: a variable is replaced by the representative of the class it belongs to", ok_r, rp, rets[0][0], f"returns `{[unparse(r.value) for r, s in rets]}` under `{v} in {c_}`: {ok_r}", "")
 
 
 RULES_EXTRA = [Rule("C05.one-link", P + ("C12", "C14", "C11", "C04"), r_one_link)]
